@@ -255,6 +255,79 @@ var c03Adversarial = []string{
 	"{ : title }",
 	"query ($: Int) { title }",
 	"{ keepers { friend { friend { friend { friend { friend { friend { friend { friend { name } } } } } } } } } }",
+	"{ ...F } fragment F on Query { title ... { ...F } }",
+	"{ ...F } fragment F on Query { title ... on Query { ...F } }",
+	"{ ... { ... { ...F } } } fragment F on Query { ... { ... on Query { ...F } } }",
+	"{ boss { ...K } } fragment K on Keeper { name friend { ... { ...K } } }",
+	"{ things { ... on Keeper { ...K } } } fragment K on Keeper { friend { ...K2 } } fragment K2 on Keeper { ... on Keeper { ...K } }",
+	"{ keeper(name: [\"k0\"]) { name } }",
+	"{ keeper(name: {a: \"k0\"}) { name } }",
+	"{ echo(s: [\"a\"], n: [1]) }",
+	"{ echo(s: \"a\", n: [[1]]) }",
+	"{ keepers { motto(upper: [true]) } }",
+	"{ find(filter: {names: \"x\"}) { name } }",
+	"{ find(filter: {minAge: [1]}) { name } }",
+	"{ find(filter: {size: [BIG]}) { name } }",
+	"{ find(filter: {names: [[\"x\"]]}) { name } }",
+	"mutation { rename(old: [\"k0\"], new: {x: 1}) { name } }",
+	"query($v: [[Int]]) { nums @skip(if: $v) }",
+}
+
+var c03AdversarialSDL = []string{
+	"union U = []", "union U = [[]]", "union U = | ", "union U", "union U =", "union U = !", "union U @d = Query",
+	"type T { a: [] }", "type T { a: [!] }", "type T { a: ! }", "type T { a: [Int }", "type T { a: Int! ! }", "type T { a(b: []): Int }",
+	"type T { a(b: Int = ): Int }", "type T { a(b: Int = [): Int }", "type T { a(b: Int = {x: ): Int }", "type T { a(: Int): Int }",
+	"input I { a: [] = 1 }", "input I { a: Int = }", "input I { : Int }", "input I { a }",
+	"directive @d(a: []) on OBJECT", "directive @ on OBJECT", "directive @d on", "directive @d(a: Int = @d) on OBJECT", "directive @d(a: Int @d) on ARGUMENT_DEFINITION",
+	"type T implements [] { a: Int }", "type T implements & { a: Int }", "type T implements I & { a: Int }",
+	"extend union U = []", "extend", "extend extend type T { a: Int }", "extend schema", "extend schema { }", "extend type { a: Int }",
+	"enum E { }", "enum E { A @ }", "enum E { \"d\" }", "enum E @d(", "enum { A }",
+	"schema { query: [] }", "schema { query: }", "schema { : Query }", "schema @d { query: Query }", "schema { query: Query } schema { query: Query }",
+	"scalar", "scalar S @", "scalar S @d(a: [", "type T @ { a: Int }", "type T { a: Int @ }", "type T { a: Int @d( }", "type T { a: Int @d(x: }",
+	"\"\"\"", "\"\"\" x", "\"x\" \"y\" type T { a: Int }", "type T { \"d\" }", "type T { \"\"\"d\"\"\" a: Int \"e\" }",
+	"type Query { a: Query } extend type Query { a: Int }", "interface I { a: I } type T implements I { a: T } type T2 implements I { a: [T] }",
+	"type T { a: Int }\ntype T { a: Int }", "type Int { a: Int }", "scalar Int", "enum __E { A }", "input I { a: I! }",
+}
+
+// warpLiterals replaces one literal argument value of a request by a value of
+// another shape (list-wrapped, object-wrapped, null, other scalar kind,
+// undefined variable, enum symbol).
+func warpLiterals(t *tape.Tape, doc string) string {
+	type span struct{ lo, hi int }
+	var spans []span
+	for i := 0; i < len(doc); i++ {
+		if doc[i] != ':' || i+2 >= len(doc) || doc[i+1] != ' ' {
+			continue
+		}
+		j := i + 2
+		switch {
+		case doc[j] == '"':
+			k := j + 1
+			for k < len(doc) && doc[k] != '"' {
+				k++
+			}
+			if k < len(doc) {
+				spans = append(spans, span{j, k + 1})
+			}
+		case doc[j] >= '0' && doc[j] <= '9':
+			k := j
+			for k < len(doc) && doc[k] >= '0' && doc[k] <= '9' {
+				k++
+			}
+			spans = append(spans, span{j, k})
+		case strings.HasPrefix(doc[j:], "true"):
+			spans = append(spans, span{j, j + 4})
+		case strings.HasPrefix(doc[j:], "false"):
+			spans = append(spans, span{j, j + 5})
+		}
+	}
+	if len(spans) == 0 {
+		return doc
+	}
+	sp := spans[t.Draw(len(spans))]
+	old := doc[sp.lo:sp.hi]
+	repl := []string{"[" + old + "]", "[[" + old + "]]", "{a: " + old + "}", "null", "$undefinedVar", "SYM", "1.5", "\"str\"", "7", "true", "[]", "{}"}[t.Draw(12)]
+	return doc[:sp.lo] + repl + doc[sp.hi:]
 }
 
 func (c C03) Run(t *tape.Tape, opt core.RunOpt) (res core.Result) {
@@ -483,6 +556,11 @@ func (c C03) Run(t *tape.Tape, opt core.RunOpt) (res core.Result) {
 			}
 			docs = append(docs, d)
 		}
+		for i := 0; i < 4; i++ {
+			// generated valid requests with one argument value of the wrong shape
+			r := workload.GenRequest(t, workload.ReqOpt{Strat: strat, MultiOp: false, VarInLiteral: strat != workload.StratReflect, ShuffleArgs: true, MaxDepth: 3})
+			docs = append(docs, warpLiterals(t, r.Src))
+		}
 		sample["family"], sample["documents"], sample["strategy"] = "adversarial requests (sampled input half)", docs, strat.String()
 		res.Sig = core.Hash64("adv", strat.String(), strings.Join(docs, "\x00"))
 		res.NonTrivial = true
@@ -494,6 +572,23 @@ func (c C03) Run(t *tape.Tape, opt core.RunOpt) (res core.Result) {
 				_ = ggql.WriteJSONValue(&w, resp, 0)
 			})
 			res.SubSigs = append(res.SubSigs, core.Hash64("adv", strat.String(), d))
+		}
+		for i := 0; i < 8; i++ {
+			d := c03AdversarialSDL[t.Draw(len(c03AdversarialSDL))]
+			if t.Bool(1, 3) {
+				d, _ = mutateDoc(t, d)
+			}
+			if t.Bool(1, 3) {
+				d = "type Query { a: Int }\n" + d
+			}
+			ctx.guard("ParseString(SDL)", "", d, func() {
+				r := workload.NewSynthRoot()
+				if err := r.ParseString(d); err == nil {
+					_ = r.SDL(true, true)
+					_ = r.ResolveString("{ __schema { types { name kind fields { name type { name } } possibleTypes { name } inputFields { name defaultValue } enumValues { name } } directives { name args { name defaultValue } } } }", "", nil)
+				}
+			})
+			res.SubSigs = append(res.SubSigs, core.Hash64("advsdl", d))
 		}
 		// entry points on a root that has nothing loaded / only AddTypes
 		ctx.guard("ResolveString(empty root)", "", "{ a }", func() { _ = ggql.NewRoot(nil).ResolveString("{ a }", "", nil) })
